@@ -13,6 +13,7 @@ import ALV.Lemmas.C13Poles1
 import ALV.Lemmas.C13Res
 import ALV.Lemmas.C13Gamma
 import ALV.Lemmas.C13Comb
+import ALV.Lemmas.C13Contract
 import Mathlib.Analysis.SpecialFunctions.Trigonometric.Inverse
 import Mathlib.Analysis.SpecialFunctions.Trigonometric.Bounds
 import ALV.Common.Audit
@@ -631,6 +632,111 @@ theorem resonator_freq_resonance_exists (f bw : ℝ) :
     · field_simp
     · rw [le_div_iff₀ (by positivity)]; linarith
     · rw [div_le_iff₀ (by positivity)]; linarith
+
+/-! ### 10. the `Contract` records returned by the driver are met (`Meets`, `ALV/Lemmas/C13Contract.lean`)
+
+The harness measures, on the real filter, exactly the fields of `lowpassSpec st c` / `highpassSpec st c`
+/ `resonatorSpec st f bw` evaluated at `Float`; these theorems say the model meets the same records
+at `ℝ`. -/
+
+/-- **C13.10a** every lowpass design meets its contract record. -/
+theorem lowpass_meets_contract (st : Strategy) (c : ℝ) (h0 : 0 < c) (h1 : c < Real.pi) :
+    Meets (lowpass st c) (lowpassSpec st c) := by
+  have hdc := lowpass_dc_gain st c h0 h1
+  have hmono := lowpass_monotone st c h0 h1
+  have hpk := lowpass_peak st c h0 h1
+  have hst := fun p hp => (lowpass_pole_inside st c h0 h1 p hp).2
+  refine ⟨?_, ?_, ?_, ?_, ?_, ?_, ?_, ?_, hst⟩
+  · cases st <;> simp [lowpassSpec, lowpassContract, lowpassExpContract, hdc]
+  · cases st <;> simp [lowpassSpec, lowpassContract, lowpassExpContract]
+  · cases st <;> simp [lowpassSpec, lowpassContract, lowpassExpContract]
+    · rw [lowpass_pole_half_power c h0 h1]; norm_num
+    · rw [lowpass_z_half_power c h0 h1]; norm_num
+  · cases st <;> simp [lowpassSpec, lowpassContract, lowpassExpContract]
+  · cases st <;> simp [lowpassSpec, lowpassContract, lowpassExpContract]
+    · exact fun p hp => ((exp_pole_radius c p).1 hp).2
+    · exact fun p hp => ((exp_pole_radius c p).2.2.2 hp).2
+  · cases st <;> simp [lowpassSpec, lowpassContract, lowpassExpContract] <;> exact hpk
+  · intro _; exact hmono
+  · cases st <;> simp [lowpassSpec, lowpassContract, lowpassExpContract]
+
+/-- **C13.10b** every highpass design meets its contract record. -/
+theorem highpass_meets_contract (st : Strategy) (c : ℝ) (h0 : 0 < c) (h1 : c < Real.pi) :
+    Meets (highpass st c) (highpassSpec st c) := by
+  have hny := highpass_nyquist_gain st c h0 h1
+  have hmono := highpass_monotone st c h0 h1
+  have hpk := highpass_peak st c h0 h1
+  have hst := fun p hp => (highpass_pole_inside st c h0 h1 p hp).2
+  refine ⟨?_, ?_, ?_, ?_, ?_, ?_, ?_, ?_, hst⟩
+  · cases st <;> simp [highpassSpec, highpassContract, highpassExpContract]
+  · cases st <;> simp [highpassSpec, highpassContract, highpassExpContract, hny]
+  · cases st <;> simp [highpassSpec, highpassContract, highpassExpContract]
+    · rw [highpass_pole_half_power c h0 h1]; norm_num
+    · rw [highpass_z_half_power c h0 h1]; norm_num
+  · cases st <;> simp [highpassSpec, highpassContract, highpassExpContract]
+  · cases st <;> simp [highpassSpec, highpassContract, highpassExpContract]
+    · exact fun p hp => ((exp_pole_radius c p).2.2.1 hp).2
+    · exact fun p hp => ((exp_pole_radius c p).2.1 hp).2
+  · cases st <;> simp [highpassSpec, highpassContract, highpassExpContract] <;> exact hpk
+  · cases st <;> simp [highpassSpec, highpassContract, highpassExpContract]
+  · intro _; exact hmono
+
+/-- **C13.10c** every resonator meets its contract record — for `z_exp` under the complex-pole
+condition of 5e (outside it the `poleRadius` field fails: 5f, the recorded finding). -/
+theorem resonator_meets_contract (st : ResStrategy) (f bw : ℝ) (h0 : 0 < f) (h1 : f < Real.pi)
+    (hbw : 0 < bw)
+    (hz : st = .zExp → |Real.cos f| * (1 + Real.exp (-(bw / 2)) ^ 2) ≤ 2 * Real.exp (-(bw / 2))) :
+    Meets (resonator st f bw) (resonatorSpec st f bw) := by
+  have hR0 := resR_pos bw
+  have hd : 0 < 1 + Real.exp (-(bw / 2)) ^ 2 := by positivity
+  obtain ⟨g1, g2⟩ := resonator_unit_gain f bw h0 h1 hbw
+  have r1 := resonator_pole_radius f bw h0 h1
+  refine ⟨?_, ?_, ?_, ?_, ?_, ?_, ?_, ?_, fun p hp => resonator_stable st f bw h0 h1 hbw p hp⟩
+  · cases st <;> simp [resonatorSpec, resonatorContract, resonatorFreqContract]
+  · cases st <;> simp [resonatorSpec, resonatorContract, resonatorFreqContract]
+  · cases st <;> simp [resonatorSpec, resonatorContract, resonatorFreqContract]
+    · exact g1
+    · exact g2
+  · cases st <;> simp [resonatorSpec, resonatorContract, resonatorFreqContract]
+    · intro ω hω
+      apply (resonator_freq_unit_gain f bw ω h0 h1 hbw).1
+      rw [hω]; field_simp
+    · intro ω hω
+      apply (resonator_freq_unit_gain f bw ω h0 h1 hbw).2
+      rw [hω]; field_simp
+  · cases st <;> simp [resonatorSpec, resonatorContract, resonatorFreqContract]
+    · exact fun p hp => (r1 p).1 hp
+    · exact fun p hp => (r1 p).2.1 hp
+    · exact fun p hp => (r1 p).2.2.2 (hz rfl) hp
+    · exact fun p hp => (r1 p).2.2.1 hp
+  · cases st <;> simp [resonatorSpec, resonatorContract, resonatorFreqContract] <;>
+      exact fun ω => resonator_peak _ f bw ω
+  · cases st <;> simp [resonatorSpec, resonatorContract, resonatorFreqContract]
+  · cases st <;> simp [resonatorSpec, resonatorContract, resonatorFreqContract]
+
+/-- **C13.10d** gammatone sections meet their contract records: every `slaney` section, every
+all-pole section of `sampled` (unit gain at `f`, poles of modulus `e^{-bw} < 1`), every `klapuri`
+section (unit gain at `f`, stable). -/
+theorem gammatone_meets_contract (f bw : ℝ) (h0 : 0 < f) (h1 : f < Real.pi) (hbw : 0 < bw) :
+    (∀ s ∈ gammatoneSlaney f bw, Meets s (gammatoneSectionContract f bw true)) ∧
+    (∀ (φ : ℝ) (eta : ℕ), ∀ s ∈ (gammatoneSampled f bw φ eta).tail,
+      Meets s (gammatoneSectionContract f bw true)) ∧
+    (∀ s ∈ gammatoneKlapuri f bw, Meets s (gammatoneSectionContract f bw false)) := by
+  obtain ⟨m1, m2⟩ := gammatone_pole_modulus f bw
+  refine ⟨fun s hs => ?_, fun φ eta s hs => ?_, fun s hs => ?_⟩
+  · obtain ⟨_, hA, h⟩ := gammatone_slaney_sections f bw h0 h1 hbw
+    obtain ⟨hg, hp⟩ := h s hs
+    refine meets_section_radius s f bw hg (fun p hpp => ?_) hA
+    rcases (hp p).1 hpp with h' | h' <;> rw [h']
+    · exact m1
+    · exact m2
+  · obtain ⟨_, hA, hp, hg, _⟩ := gammatone_sampled_sections f bw φ eta h0 h1 hbw
+    refine meets_section_radius s f bw (hg s hs) (fun p hpp => ?_) hA
+    rcases (hp s (List.mem_of_mem_tail hs) p).1 hpp with h' | h' <;> rw [h']
+    · exact m1
+    · exact m2
+  · obtain ⟨_, h⟩ := gammatone_klapuri_sections f bw h0 h1 hbw
+    exact meets_section_stable s f bw (h s hs).1 (h s hs).2
 
 /-! ### non-vacuity: the hypotheses are satisfiable on non-trivial inputs -/
 
